@@ -49,6 +49,19 @@ func (m Map) validate() error {
 				errs = append(errs, errorx.Invalid("Chord %s Extends %s not found", c.Name, x))
 			}
 		}
+		seen := map[string]bool{c.Name: true}
+		for x := c.Extends; x != ""; {
+			p, ok := m.chords[x]
+			if !ok {
+				break
+			}
+			if seen[p.Name] {
+				errs = append(errs, errorx.Invalid("Chord %s Extends forms a cycle", c.Name))
+				break
+			}
+			seen[p.Name] = true
+			x = p.Extends
+		}
 	}
 
 	return errors.Join(errs...)
